@@ -6,6 +6,9 @@ use poulpy_verif_harness::hal::*;
 use poulpy_verif_harness::with_be;
 use poulpy_hal::api::*;
 
+#[path = "../c08_enc.rs"]
+mod c08_enc;
+
 /// flat-memory vector ops through the public HAL API of Module<BE>
 /// ps = be n | rcols rsize rmax rcol | acols asize amax acol | extra...   vs = [res_flat, a_flat]
 fn vec_op(r: &Rec) -> Vec<Vec<i128>> {
@@ -115,6 +118,7 @@ fn kernel(r: &Rec) -> Vec<Vec<i128>> {
         8024 => { let (be, k) = (p[0], p[1] as i64); let mut x = v[0].clone();
             with_znx!(be, T, { T::znx_muladd_power_of_two(k, &mut x, &v[1]) }); vec![to128(&x)] }
         8101..=8299 => vec_op(r),
+        8301..=8399 => c08_enc::op(r),
         _ => panic!("c08: unknown op {}", r.code),
     }
 }
@@ -168,6 +172,7 @@ pub fn generate(tier: &str, seed: u64) -> Vec<Rec> {
         }
     }
     gen_vec(&mut rng, tier, &mut out);
+    c08_enc::generate(tier, &mut rng, &mut out);
     out
 }
 
